@@ -9,6 +9,8 @@ import (
 	"fmt"
 	"io"
 	"os"
+	"runtime"
+	"strings"
 	"sync/atomic"
 	"testing"
 	"time"
@@ -44,6 +46,7 @@ type cliSchedule struct {
 
 var gateToPC = map[string][2]string{ // gate -> pc outside / inside a callback
 	"clock.Now":       {"S_now", "R_now"},
+	"client.start":    {"S_cstart", "R_cstart"},
 	"agent.Start":     {"S_agentStart", "R_agentStart"},
 	"conn.Write":      {"S_write", "R_write"},
 	"agent.Stop":      {"S_agentStop", "R_agentStop"},
@@ -70,6 +73,9 @@ type replayer struct {
 	sch     cliSchedule
 	drifted bool
 	logging int32
+	isDo    map[string]bool // callers that use Client.Do
+	waiting map[string]bool // Do callers seen blocked in callbackWaitHandler.wait
+	hdone   map[string]bool // callers whose handler has returned (guarded by c.mu)
 }
 
 const stepTimeout = 6 * time.Second
@@ -93,6 +99,11 @@ func modelID(id string) int {
 
 func (r *replayer) drift(why string, st cliStep, got string) {
 	r.drifted = true
+	if r.cli != nil && !r.done["RD"] && !r.readerAlive() {
+		// the reader goroutine is gone although the model has it parked at a gate
+		r.done["RD"] = true
+		r.emit(map[string]interface{}{"k": "exit", "p": "RD"})
+	}
 	r.emit(map[string]interface{}{"k": "drift", "why": why, "p": st.P, "from": st.From, "want": st.To, "got": got})
 }
 
@@ -124,6 +135,11 @@ func (r *replayer) waitFor(p string) (*gateArr, bool, bool) {
 			}
 		case <-deadline:
 			return nil, false, false
+		case <-time.After(100 * time.Millisecond):
+			// a reader goroutine that is gone will not arrive anywhere: no point in waiting the step out
+			if p == "RD" && r.cli != nil && !r.readerAlive() {
+				return nil, false, false
+			}
 		}
 	}
 }
@@ -153,6 +169,32 @@ func (r *replayer) pcOf(a *gateArr) string {
 		return m[1]
 	}
 	return m[0]
+}
+
+// doWaiting counts this client's Do callers that are blocked in callbackWaitHandler.wait.
+func (r *replayer) doWaiting() int {
+	buf := make([]byte, 1<<20)
+	n := runtime.Stack(buf, true)
+	ptr := fmt.Sprintf("(*Client).Do(%p", r.cli)
+	k := 0
+	for _, g := range strings.Split(string(buf[:n]), "\n\n") {
+		// (in wait(): on the condition variable, or on its mutex while HandleEvent is running the callback)
+		if strings.Contains(g, ptr) && strings.Contains(g, "(*callbackWaitHandler).wait") {
+			k++
+		}
+	}
+	return k
+}
+
+// knownWaiting: Do callers that were seen blocked and have not come back yet
+func (r *replayer) knownWaiting() int {
+	k := 0
+	for p := range r.waiting {
+		if !r.done[p] {
+			k++
+		}
+	}
+	return k
 }
 
 func (r *replayer) readerAlive() bool {
@@ -189,6 +231,38 @@ func (r *replayer) settle(st cliStep) {
 			}
 		}
 		r.drift("reader-still-alive", st, "alive")
+		return
+	}
+	if st.To == "D_wait" {
+		// Start returned nil inside Do: the caller is now blocked in callbackWaitHandler.wait (not a gate), or has
+		// come back already because its handler finished earlier
+		deadline := time.Now().Add(stepTimeout)
+		for time.Now().Before(deadline) {
+			select {
+			case x := <-r.c.arrivals:
+				r.c.mu.Lock()
+				r.c.parked[x.proc] = x
+				r.c.mu.Unlock()
+				if x.proc == p {
+					r.drift("wrong-gate", st, r.pcOf(x))
+					return
+				}
+			case f := <-r.c.finished:
+				r.c.mu.Lock()
+				r.done[f] = true
+				r.c.mu.Unlock()
+				if f == p {
+					return
+				}
+			case <-time.After(2 * time.Millisecond):
+				if r.doWaiting() > r.knownWaiting() {
+					r.waiting[p] = true
+					r.emit(map[string]interface{}{"k": "do_waiting", "s": startIndex(p)})
+					return
+				}
+			}
+		}
+		r.drift("no-arrival", st, "timeout")
 		return
 	}
 	blockedOK := st.To == "X_wait" || (st.To == "X_connClose" && !r.sch.CloseConn)
@@ -252,6 +326,88 @@ func (r *replayer) settle(st cliStep) {
 	}
 }
 
+// looseStep executes one step of the schedule after a drift (see runSchedule).
+func (r *replayer) looseStep(st cliStep) {
+	switch {
+	case st.P == "env" && st.SetRTO != 0:
+		r.emit(map[string]interface{}{"k": "setrto", "v": st.SetRTO})
+		r.cli.SetRTO(time.Duration(st.SetRTO) * time.Second)
+		return
+	case st.P == "env" && st.Tick:
+		r.c.mu.Lock()
+		r.c.clock = st.Clock
+		r.c.mu.Unlock()
+		r.emit(map[string]interface{}{"k": "tick", "t": st.Clock})
+		return
+	case st.P == "env":
+		id := modelID(st.Deliver.ID)
+		data := respMessage(cliID(id), 3+id)
+		if st.Deliver.Kind == "garbage" {
+			data = []byte{0, 1, 0, 0, 9, 9, 9, 9, 1, 2, 3, 4, 5, 6, 7, 8, 9, 10, 11, 12, 13}
+		}
+		r.c.inbox, r.c.hasInbox = data, true
+		r.emit(map[string]interface{}{"k": "deliver", "kind": st.Deliver.Kind, "id": id, "raw": ints(data)})
+		return
+	case st.From == "idle":
+		if !r.started[st.P] {
+			r.started[st.P] = true
+			r.spawnStart(st.P, 0)
+		}
+	case st.From == "X_begin":
+		if !r.started["X"] {
+			r.started["X"] = true
+			r.spawnClose()
+		}
+	default:
+		r.c.mu.Lock()
+		a := r.c.parked[st.P]
+		r.c.mu.Unlock()
+		if a == nil {
+			return // finished, blocked inside the library, or still running
+		}
+		var resp gateResp
+		switch a.name {
+		case "conn.Write":
+			resp.fail = (st.From == "S_write" || st.From == "R_write") && !st.Wok
+		case "conn.Read":
+			if !r.c.hasInbox {
+				return // nothing to read: the reader stays where it is
+			}
+			resp.data = r.c.inbox
+			r.c.hasInbox = false
+		case "cl.idle":
+			resp.now = r.c.now()
+		}
+		r.release(st.P, resp)
+	}
+	// wait (briefly) until the goroutine parks again or ends; one that blocks inside the library is left alone
+	deadline := time.After(40 * time.Millisecond)
+	for {
+		select {
+		case x := <-r.c.arrivals:
+			r.c.mu.Lock()
+			r.c.parked[x.proc] = x
+			r.c.mu.Unlock()
+			if x.proc == st.P && x.name == "agent.Collect" {
+				r.release(st.P, gateResp{}) // not a stop of the model: go on to the next one
+				continue
+			}
+			if x.proc == st.P {
+				return
+			}
+		case f := <-r.c.finished:
+			r.c.mu.Lock()
+			r.done[f] = true
+			r.c.mu.Unlock()
+			if f == st.P {
+				return
+			}
+		case <-deadline:
+			return
+		}
+	}
+}
+
 func (r *replayer) spawnStart(p string, refusedVariant int) {
 	idx := startIndex(p)
 	id := cliID(idx)
@@ -277,15 +433,20 @@ func (r *replayer) spawnStart(p string, refusedVariant int) {
 		r.emit(map[string]interface{}{"k": "handler", "s": idx, "p": r.c.procName(), "kind": evKind(e),
 			"id": idIndex(e.TransactionID), "msg": raw, "t": r.c.now()})
 		r.c.arrive("uh", nil)
+		r.emit(map[string]interface{}{"k": "handler_done", "s": idx})
+		r.c.mu.Lock()
+		r.hdone[p] = true
+		r.c.mu.Unlock()
 	}
+	useDo := refusedVariant == 1 || r.isDo[p]
 	go func() {
 		r.c.register(p)
-		r.emit(map[string]interface{}{"k": "start_call", "s": idx, "id": idx, "raw": ints(snapshot), "t": r.c.now()})
+		r.emit(map[string]interface{}{"k": "start_call", "s": idx, "id": idx, "raw": ints(snapshot), "t": r.c.now(), "do": useDo})
 		var err error
-		switch refusedVariant {
-		case 1: // the model says this call is refused at once (client closed): Do and Indicate must be refused alike
+		switch {
+		case useDo: // (refusedVariant 1: the model says this call is refused at once; Do and Indicate must be refused alike)
 			err = r.cli.Do(m, h)
-		case 2:
+		case refusedVariant == 2:
 			err = r.cli.Indicate(m)
 		default:
 			err = r.cli.Start(m, h)
@@ -294,7 +455,7 @@ func (r *replayer) spawnStart(p string, refusedVariant int) {
 		for i := range m.Raw {
 			m.Raw[i] = 0xEE
 		}
-		r.emit(map[string]interface{}{"k": "start_ret", "s": idx, "err": fmtErr(err)})
+		r.emit(map[string]interface{}{"k": "start_ret", "s": idx, "err": fmtErr(err), "do": useDo})
 		r.c.finished <- p
 	}()
 }
@@ -325,7 +486,20 @@ func (r *replayer) spawnClose() {
 }
 
 func runSchedule(tw *traceWriter, sch cliSchedule) {
-	r := &replayer{depth: map[string]int{}, done: map[string]bool{}, started: map[string]bool{}, sch: sch, logging: 1}
+	r := &replayer{depth: map[string]int{}, done: map[string]bool{}, started: map[string]bool{}, sch: sch, logging: 1,
+		isDo: map[string]bool{}, waiting: map[string]bool{}, hdone: map[string]bool{}}
+	// which callers are Client.Do: those the model sends through D_wait; a caller whose Start is not seen returning
+	// nil in this behaviour (refused, failed or cut short) uses Do in every other schedule
+	for _, p := range []string{"s1", "s2"} {
+		viaWait, plainNil := false, false
+		for _, st := range sch.Steps {
+			if st.P == p && st.From == "S_write" && st.Wok {
+				viaWait = st.To == "D_wait"
+				plainNil = st.To == "done"
+			}
+		}
+		r.isDo[p] = viaWait || (!plainNil && sch.Tr%2 == 1)
+	}
 	r.emit = func(m map[string]interface{}) {
 		if atomic.LoadInt32(&r.logging) == 0 {
 			return
@@ -367,6 +541,8 @@ func runSchedule(tw *traceWriter, sch cliSchedule) {
 		panic(err)
 	}
 	r.cli = cli
+	clientGates.Store(cli, r.c)
+	defer clientGates.Delete(cli)
 	// the reader and the collector park at their first gates
 	for _, p := range []string{"RD", "CL"} {
 		_ = p
@@ -387,7 +563,11 @@ func runSchedule(tw *traceWriter, sch cliSchedule) {
 	}
 	for _, st := range sch.Steps {
 		if r.drifted {
-			break
+			// the real client has left the model's behaviour: the rest of the schedule is still used as a script -
+			// the same goroutines are released in the same order, the environment acts as planned - but where a
+			// goroutine parks next is no longer compared with the model (the monitors keep watching)
+			r.looseStep(st)
+			continue
 		}
 		switch {
 		case st.P == "env" && st.SetRTO != 0:
@@ -403,6 +583,10 @@ func runSchedule(tw *traceWriter, sch cliSchedule) {
 			id := modelID(st.Deliver.ID)
 			if st.Deliver.Kind == "garbage" {
 				data = []byte{0, 1, 0, 0, 9, 9, 9, 9, 1, 2, 3, 4, 5, 6, 7, 8, 9, 10, 11, 12, 13}
+				if sch.Tr%4 == 3 {
+					// shorter than a STUN header (an empty datagram included): a prefix of a response for the in-flight id
+					data = respMessage(cliID(1), 4)[:(sch.Tr/4)%20]
+				}
 				if sch.Tr%2 == 0 {
 					// undecodable in a subtler way: a response for the in-flight id whose header length stops in the
 					// middle of its last attribute, with the rest of the attribute still present behind it
@@ -433,6 +617,13 @@ func runSchedule(tw *traceWriter, sch cliSchedule) {
 			r.started["X"] = true
 			r.spawnClose()
 			r.settle(st)
+		case st.From == "D_wait":
+			// Do returns by itself once its handler has finished
+			if !r.done[st.P] {
+				if _, fin, ok := r.waitFor(st.P); !ok || !fin {
+					r.drift("do-did-not-return", st, "blocked")
+				}
+			}
 		case st.From == "S_stopret":
 			// same segment as the preceding callback exit in the real code
 		case st.From == "X_wait":
@@ -543,8 +734,19 @@ func runSchedule(tw *traceWriter, sch cliSchedule) {
 				waitDone(p, time.Second)
 			}
 		}
-		if !r.readerAlive() {
+		if !r.readerAlive() && !r.done["RD"] {
 			r.emit(map[string]interface{}{"k": "exit", "p": "RD"})
+		}
+	}
+	if !r.drifted {
+		// a Do caller whose handler has finished comes back on its own: give it the time to do so
+		for p := range r.waiting {
+			r.c.mu.Lock()
+			hd := r.hdone[p]
+			r.c.mu.Unlock()
+			if hd && !r.done[p] {
+				r.waitFor(p) //nolint
+			}
 		}
 	}
 	r.emit(map[string]interface{}{"k": "end", "drifted": r.drifted})
@@ -556,7 +758,7 @@ func runSchedule(tw *traceWriter, sch cliSchedule) {
 	cdone := make(chan struct{})
 	go func() {
 		defer func() { recover(); close(cdone) }() //nolint
-		cli.Close()                                 //nolint
+		cli.Close()                                //nolint
 	}()
 	time.Sleep(100 * time.Microsecond)
 	r.conn.forceClose()
@@ -600,12 +802,16 @@ func TestVerifClientReplay(t *testing.T) {
 	sc := bufio.NewScanner(f)
 	sc.Buffer(make([]byte, 1<<20), 1<<26)
 	tr := 0
+	base := envInt("VERIF_TR_BASE", 0)
 	for sc.Scan() {
 		var s cliSchedule
 		if err := json.Unmarshal(sc.Bytes(), &s); err != nil {
 			t.Fatal(err)
 		}
 		tr++
+		if tr <= base {
+			continue // replayed by an earlier process (which a panic inside a library goroutine brought down)
+		}
 		s.Tr = tr
 		if s.MsgSize == 0 {
 			s.MsgSize = 20
